@@ -167,3 +167,11 @@ PROPS['C02'].update(engines=[eng_c02.engine], extended=[eng_c02.engine], replaye
 PROPS['C20'].setdefault('engines', []).append(eng_c20.engine)
 PROPS['C20'].setdefault('extended', []).append(eng_c20.engine)
 PROPS['C20'].setdefault('replayers', []).append(eng_c20.replayer)
+
+# direct translator validation (kernel evaluated in Coq vs the real function on boundary-biased inputs)
+import eng_kernels
+for _p in ('C02', 'C06', 'C10', 'C20'):
+    PROPS[_p].setdefault('engines', []).append(eng_kernels.make_engine(_p))
+    PROPS[_p].setdefault('extended', []).append(eng_kernels.make_engine(_p))
+    PROPS[_p].setdefault('replayers', []).append(eng_kernels.replayer)
+
